@@ -16,11 +16,23 @@ CHECKS = {
          'lifetimes and compared with the denotation; Program.tla adds seeded DAG x forcing-order x lifetime behaviours.',
          'small-scope (<=4 leaves, lattice boxes, 90-degree/translation transforms); winding oracle; transcription of csg_tree.cpp by hand',
          'TLC model checking of evaluator rewrites + exhaustive spec-generated behaviours replayed on real code', '5 C03'),
+ 'C04': ('exploration', 'ForEach.tla proves (TLC, all chunk orders/assignments/combine orders) that the library\'s three parallel output idioms are schedule-independent '
+         'exactly when the sort key is total and accumulation is integral, and refutes the tie / float variants; the same case file (refined Expr.tla '
+         'expressions above the parallel thresholds, coincident imports, >2^18-vertex imports, sphere/batch Booleans, hull, Minkowski, level set, smoothing, '
+         'CrossSection Booleans above the BVH threshold, Triangulate) runs in the serial-backend build and the TBB build with arena sizes 1,2,3,7,16, repeatedly; all export hashes must agree.',
+         'TBB schedules are sampled (arena size x repetition), not enumerated; original IDs renamed by first occurrence',
+         'TLC model checking of the output idioms + cross-configuration replay of one case file', '5 C04'),
  'C05': ('model_checking', 'Program.tla!ValueStable model-checked; TLC-generated histories over a pool of live objects replayed with every '
          'already-observed handle re-observed bit-for-bit after every later action; Expr.tla families with the derived root dropped '
          'unevaluated / evaluated first (held and shared sub-expressions must keep their value).',
          'observation = hash of full MeshGL64 export + scalar getters; lattice regime; CrossSection values not yet covered',
          'TLC-generated histories replayed on real code with value-stability oracle from the spec', '5 C05'),
+ 'C06': ('model_checking', 'Sync.tla: every shared-field access of the handle/op-node/leaf machinery as a micro-step with the locks the code holds; TLC interleaves '
+         '2-3 client threads and checks the lockset discipline and deadlock freedom (the unguarded-cache_ variant of the pinned tree is refuted). Client programs '
+         'over the same call menu run on real threads in a ThreadSanitizer build (serial backend: all synchronisation visible) with seeded skew; a TSan report, '
+         'a hang, or an answer differing from the serial run is a violation.',
+         'ThreadSanitizer is the race witness; thread timing is sampled; the access table of Sync.tla is a hand transcription',
+         'TLC model checking of the locking protocol + TSan-witnessed replay of client programs', '5 C06'),
  'C08': ('exploration', 'export -> import -> export compared as canonical triangle multisets (bit-exact properties, IDs, flags, transforms) for every handle of '
          'TLC-generated programs', 'tangents / 32-bit / OBJ paths not covered yet', 'TLC behaviour generation + replay with round-trip oracle', '5 C08'),
  'C09': ('model_checking', 'MeshGL.tla: abstract MeshGL as a record of field classes, the ingest validation ladder transcribed, totality and '
@@ -42,6 +54,10 @@ CHECKS = {
          'eager context-observed operations); every run is judged and its recorded trace validated by TLC against Ctx_Trace.tla.',
          'probe counts checks on one registered context (single-threaded injection at every check site); eager ops on fixed small inputs',
          'TLC model checking + fault injection at every cancellation check + TLC trace validation', '5 C15'),
+ 'C16': ('model_checking', 'Hull3.tla: exact integer IsHullOf relation (closed manifold, vertices are inputs, containment, convex edges, empty iff no volume) and the '
+         'Minkowski inclusions on lattice cells; TLC checks the relation against a reference construction, rejects damaged results and enumerates every point multiset / solid pair; '
+         'each case is executed on the real Hull/Minkowski API through several routes and judged in exact integer arithmetic or by the winding oracle; a sample of returned meshes is re-judged by TLC.',
+         'lattice inputs only; reach clause is an upper bound only; F10/F16 signatures mask their dispatch classes', 'denotational TLA+ spec, exhaustive enumeration, replay, TLC trace validation of the result relation', '5 C16'),
  'C18': ('exploration', 'measurement queries of every live handle of TLC-generated lattice programs compared with Lattice.tla (cells, exposed faces, '
          'extent, slices, shadow, components) and with sums over the export', 'lattice regime; MinGap/general position not covered yet', T_REPLAY, '5 C18'),
 }
